@@ -42,6 +42,10 @@ func setBundleIDFromConsumableStore(ctx context.Context, bundle *Bundle) error {
 	for _, key := range keys {
 		bundleID, err = getBundleIDFromPath(key)
 		if err != nil {
+			if _, ok := err.(model.ConsumableStorePathMetadataErr); ok {
+				// a data file, not bundle metadata: keep looking
+				continue
+			}
 			return err
 		}
 		if bundleID != "" {
